@@ -1,11 +1,13 @@
 package main
 
 import (
+	"bytes"
 	"context"
 	"crypto"
 	"crypto/ecdsa"
 	"crypto/elliptic"
 	"crypto/rand"
+	"crypto/rsa"
 	"crypto/sha256"
 	"crypto/x509"
 	"crypto/x509/pkix"
@@ -17,7 +19,10 @@ import (
 	"math/big"
 	"net/http"
 	"net/http/httptest"
+	"os"
+	"path/filepath"
 	"strings"
+	"sync"
 	"time"
 
 	"go.step.sm/crypto/jose"
@@ -35,9 +40,14 @@ import (
 // env is one CA (and its successors after restarts) with three provisioners:
 // "jwk" (fixture default), "jwk2" (another JWK key) and "k8s" (K8sSA with one public key).
 type env struct {
-	ca     *fixture.CA
-	hasDB  bool
-	noChk  bool
+	ca    *fixture.CA
+	hasDB bool
+	noChk bool
+	// admin: ca.json says enableAdmin. The first start migrates the provisioners of the configuration into the admin
+	// database (ProvisionerToLinkedca, CreateProvisioner) and creates the super admin "step" of the first JWK provisioner;
+	// every start then loads them from there (ProvisionerToCertificates). Needs the database; without the cloud
+	// provisioners (their loopback key-server override lives in the configured object, not in its stored form).
+	admin  bool
 	hooks  *ss.Hooks
 	jwk2   *jose.JSONWebKey
 	k8sKey *ecdsa.PrivateKey
@@ -51,10 +61,19 @@ type env struct {
 	// certificates of the CA as other provisioner types would have issued them (provisioner extension naming that
 	// provisioner; "noext": no extension), all with the key leafKey: renew tokens of such certificates
 	leafBy map[string]*x509.Certificate
+	// AWS: the key and certificate (crypto/rsa, a PEM file named by iidRoots) that sign instance identity documents for the
+	// provisioners "awst" (trust on first use: the id is the instance) and "awsr" (disabled: the id is the hash of the token)
+	awsKey *rsa.PrivateKey
 	// an SSH host certificate of the CA and its key: signs SSHPOP tokens (provisioner "sshpop")
 	sshCert *ssh.Certificate
 	sshKey  *ecdsa.PrivateKey
 }
+
+var (
+	awsOnce sync.Once
+	awsKey  *rsa.PrivateKey
+	awsDir  string // removed by main when the stage ends
+)
 
 const oidcClient = "verif-client"
 const oidcAdmin = "admin@example.com"
@@ -66,8 +85,10 @@ func must[T any](v T, err error) T {
 	return v
 }
 
-func newEnv(hasDB, noChk bool, hooks *ss.Hooks) *env {
-	e := &env{hasDB: hasDB, noChk: noChk, hooks: hooks}
+func newEnv(hasDB, noChk bool, hooks *ss.Hooks) *env { return newEnvAdmin(hasDB, noChk, false, hooks) }
+
+func newEnvAdmin(hasDB, noChk, admin bool, hooks *ss.Hooks) *env {
+	e := &env{hasDB: hasDB, noChk: noChk, hooks: hooks, admin: admin && hasDB}
 	e.jwk2 = must(jose.GenerateJWK("EC", "P-256", "ES256", "sig", "", 0))
 	e.jwk2.KeyID = must(jose.Thumbprint(e.jwk2))
 	pub2 := e.jwk2.Public()
@@ -95,8 +116,22 @@ func newEnv(hasDB, noChk bool, hooks *ss.Hooks) *env {
 	provisioner.VerifSetAzureDiscoveryURL(azr, e.oidcSrv.URL+"/.well-known/openid-configuration")
 	provisioner.VerifSetGCPCertsURL(gcpt, e.oidcSrv.URL+"/keys")
 	provisioner.VerifSetGCPCertsURL(gcpr, e.oidcSrv.URL+"/keys")
+	// AWS instance identity documents signed by a key of this harness (iidRoots names the certificate); one key per process
+	awsOnce.Do(func() {
+		awsKey = must(rsa.GenerateKey(rand.Reader, 2048))
+		awsDir = must(os.MkdirTemp("", "verif-c02-aws-"))
+		awsTpl := &x509.Certificate{SerialNumber: big.NewInt(1), Subject: pkix.Name{CommonName: "verif iid"}, NotBefore: time.Now().Add(-time.Hour), NotAfter: time.Now().Add(240 * time.Hour)}
+		awsDER := must(x509.CreateCertificate(rand.Reader, awsTpl, awsTpl, &awsKey.PublicKey, awsKey))
+		if err := os.WriteFile(filepath.Join(awsDir, "iid.pem"), pem.EncodeToMemory(&pem.Block{Type: "CERTIFICATE", Bytes: awsDER}), 0o600); err != nil {
+			panic(err)
+		}
+	})
+	e.awsKey = awsKey
+	iid := filepath.Join(awsDir, "iid.pem")
+	awst := &provisioner.AWS{Type: "AWS", Name: "awst", Accounts: []string{"123456789012"}, IIDRoots: iid}
+	awsr := &provisioner.AWS{Type: "AWS", Name: "awsr", Accounts: []string{"123456789012"}, IIDRoots: iid, DisableTrustOnFirstUse: true}
 	e.provs = provisioner.List{
-		azt, azr, gcpt, gcpr,
+		azt, azr, gcpt, gcpr, awst, awsr,
 		&provisioner.ACME{Type: "ACME", Name: "acme"},
 		&provisioner.SSHPOP{Type: "SSHPOP", Name: "sshpop"},
 		&provisioner.OIDC{Type: "OIDC", Name: "oidc", ClientID: oidcClient,
@@ -104,13 +139,20 @@ func newEnv(hasDB, noChk bool, hooks *ss.Hooks) *env {
 		&provisioner.JWK{Type: "JWK", Name: "jwk2", Key: &pub2},
 		&provisioner.K8sSA{Type: "K8sSA", Name: "k8s", PubKeys: pem.EncodeToMemory(&pem.Block{Type: "PUBLIC KEY", Bytes: der})},
 	}
+	if e.admin {
+		e.provs = e.provs[6:]
+	}
 	e.ca = must(fixture.New(e.opts(nil)))
 	cn := "step-" + randHex()
-	csr, key, err := fixture.CSR(cn, []string{cn + ".example.com"})
+	sans := []string{cn + ".example.com"}
+	if e.admin {
+		sans = append(sans, "step") // the certificate of the super admin the migration created
+	}
+	csr, key, err := fixture.CSR(cn, sans)
 	if err != nil {
 		panic(err)
 	}
-	e.leaf = must(e.ca.SignX509(must(e.ca.Token(fixture.TokenOpts{Subject: cn, SANs: []string{cn + ".example.com"}})), csr, provisioner.SignOptions{}))[0]
+	e.leaf = must(e.ca.SignX509(must(e.ca.Token(fixture.TokenOpts{Subject: cn, SANs: sans})), csr, provisioner.SignOptions{}))[0]
 	e.leafKey = key
 	e.leafBy = map[string]*x509.Certificate{}
 	for name, typ := range map[string]provisioner.Type{"acme": provisioner.TypeACME, "k8s": provisioner.TypeK8sSA, "azt": provisioner.TypeAzure,
@@ -145,6 +187,25 @@ func mintHdr(key any, alg string, hdr map[string]any, claims map[string]any) str
 	return must(jose.Signed(sig).Claims(claims).CompactSerialize())
 }
 
+// awsToken: what `step ca token --aws`-style clients send: a JWT signed (HS256) with the identity document's signature as key,
+// carrying the document and its signature
+func (e *env) awsToken(prov, instance string, claims map[string]any, badDoc bool) string {
+	doc := must(json.Marshal(map[string]any{"accountId": "123456789012", "instanceId": instance, "privateIp": "10.0.0.7", "region": "us-east-1",
+		"pendingTime": time.Now().Add(-time.Hour).UTC().Format(time.RFC3339), "version": "2017-09-30"}))
+	h := sha256.Sum256(doc)
+	sig := must(rsa.SignPKCS1v15(rand.Reader, e.awsKey, crypto.SHA256, h[:]))
+	if badDoc {
+		doc = bytes.Replace(doc, []byte("10.0.0.7"), []byte("10.0.0.8"), 1) // the signature no longer covers the document
+	}
+	if _, ok := claims["iss"]; !ok {
+		claims["iss"] = "ec2.amazonaws.com"
+	}
+	claims["aud"] = "https://ca.verif.test/1.0/sign#aws/" + prov
+	claims["amazon"] = map[string]any{"document": doc, "signature": sig}
+	signer := must(jose.NewSigner(jose.SigningKey{Algorithm: jose.HS256, Key: sig}, new(jose.SignerOptions).WithType("JWT")))
+	return must(jose.Signed(signer).Claims(claims).CompactSerialize())
+}
+
 func (e *env) chain() []string { return e.chainOf("") }
 
 // chainOf: the certificate issued by provisioner `issuer` ("" = the jwk-issued leaf) and the intermediate
@@ -159,8 +220,10 @@ func (e *env) chainOf(issuer string) []string {
 func (e *env) opts(from *fixture.CA) fixture.Opts {
 	yes := true
 	o := fixture.Opts{Provisioners: e.provs, From: from, SSH: true, JWKClaims: &provisioner.Claims{EnableSSHCA: &yes}}
-	if e.noChk {
-		o.Config = func(c *config.Config) { c.AuthorityConfig.DisableIssuedAtCheck = true }
+	noChk, admin := e.noChk, e.admin
+	o.Config = func(c *config.Config) {
+		c.AuthorityConfig.DisableIssuedAtCheck = noChk
+		c.AuthorityConfig.EnableAdmin = admin
 	}
 	if e.hasDB {
 		o.WrapDB = ss.Wrap(e.hooks)
